@@ -13,10 +13,11 @@ ANCHORS = ["src/pylife/stress/collective/load_collective.py", "src/pylife/stress
            "src/pylife/stress/rainflow/recorders.py"]
 SHARDS = {"quick": 6, "thorough": 16}
 WATCHDOG = {"quick": 1200, "thorough": 3300}
-REQUIRED_CLASSES = {t: ["coll:from>to", "coll:from<to", "coll:negative_loads", "coll:range_mean_form", "coll:extra_index_level",
+REQUIRED_CLASSES = {t: ["coll:from>to", "coll:from<to", "coll:negative_loads", "coll:range_mean_form", "coll:extra_index_level", "coll:columns_reversed", "coll:further_columns_interleaved",
                         "bins:int", "bins:edges", "bins:interval_index", "bins:single", "bins:irregular", "value_on_edge",
                         "rebin:single_target", "rebin:same_binning", "rebin:finer", "rebin:coarser", "rebin:irregular",
-                        "rebin:int_target", "rebin:integer_counts", "rebin:source_from_range_histogram", "combine:overlapping", "operand:series"]
+                        "rebin:int_target", "rebin:integer_counts", "rebin:source_from_range_histogram", "combine:overlapping", "operand:series",
+                        "hist2d:int_bins", "hist2d:interval_bins", "hist2d:axis", "rebin:2d_int_target", "rebin:2d_multiindex_target", "combine:2d"]
                     for t in ("quick", "thorough")}
 REQUIRED_MONITORS = ["identities:upper/lower/amplitude/mean/R", "from_to==range_mean", "scale", "shift", "range_histogram:total",
                      "histogram:total", "range_histogram==marginal", "rebin:total_conserved", "rebin:identity", "rebin:composes",
@@ -24,7 +25,7 @@ REQUIRED_MONITORS = ["identities:upper/lower/amplitude/mean/R", "from_to==range_
 RULE = ("seeded collectives (from/to and range/mean form, any sign, from > to and from < to, optional extra index level, no cycles "
         "column for the histogram totals) and bin specifications (count, edge arrays, IntervalIndex, a single bin, irregular edges, "
         "values exactly on edges); histograms with irregular interval indices re-binned to single-interval, identical, finer, "
-        "coarser, irregular and integer targets that cover them; lists of histograms combined by sum. Non-trivial: at least 3 "
+        "coarser, irregular and integer targets that cover them; two-dimensional (range, mean) histograms from integer / edge / IntervalIndex bins, per group along an extra level (axis), re-binned to integer and MultiIndex targets and combined; lists of histograms combined by sum. Non-trivial: at least 3 "
         "cycles / 2 classes; distinct = distinct case.")
 ASSUMPTIONS = ["histogram totals are judged for collectives without a cycles column (with one the statement does not fix whether rows "
                "or cycles are counted; logged, not judged)",
@@ -57,7 +58,7 @@ def _close(a, b, rtol=1e-9, atol=1e-9):
     return a.shape == b.shape and bool(np.all(np.abs(a - b) <= rtol * np.abs(b) + atol))
 
 
-def _collective(rng, ctx, extra=None, form=None):
+def _collective(rng, ctx, extra=None, form=None, with_cycles=False):
     n = int(rng.integers(3, 25))
     fr = np.round(rng.uniform(-100, 100, n), 1)
     to = np.round(rng.uniform(-100, 100, n), 1)
@@ -75,10 +76,26 @@ def _collective(rng, ctx, extra=None, form=None):
         idx = pd.MultiIndex.from_arrays([rng.integers(0, 3, n) * 10 + 1, np.arange(n)], names=["element_id", "cycle_number"])
     form = form or ("from_to" if rng.random() < 0.5 else "range_mean")
     if form == "from_to":
-        df = pd.DataFrame({"from": fr, "to": to}, index=idx)
+        cols = {"from": fr, "to": to}
     else:
         ctx.tag("coll:range_mean_form")
-        df = pd.DataFrame({"range": np.abs(fr - to), "mean": (fr + to) / 2.0}, index=idx)
+        cols = {"range": np.abs(fr - to), "mean": (fr + to) / 2.0}
+    # a frame is addressed by its column names: their order and any further columns must not matter
+    names = list(cols)
+    lay = int(rng.integers(0, 4))
+    if lay == 1:
+        names = names[::-1]
+        ctx.tag("coll:columns_reversed")
+    elif lay >= 2:
+        extra_cols = {"index_from": np.arange(n) * 2, "index_to": np.arange(n) * 2 + 1} if lay == 2 else {}
+        if with_cycles:
+            extra_cols["cycles"] = rng.integers(1, 50, n).astype(float)
+        if extra_cols:
+            cols.update(extra_cols)
+            names = list(cols)
+            names = [names[i] for i in rng.permutation(len(names))]
+            ctx.tag("coll:further_columns_interleaved")
+    df = pd.DataFrame({k: cols[k] for k in names}, index=idx)
     return df, fr, to
 
 
@@ -90,7 +107,7 @@ def run_case(case, ctx):
 
 
 def _case_collective(ctx, rng):
-    df, fr, to = _collective(rng, ctx)
+    df, fr, to = _collective(rng, ctx, with_cycles=True)
     lc = df.copy().load_collective
     ctx.nontrivial(True)
     up, lo, amp, mean, R = (np.asarray(x, dtype=float) for x in (lc.upper, lc.lower, lc.amplitude, lc.meanstress, lc.R))
@@ -126,7 +143,8 @@ def _case_collective(ctx, rng):
     ctx.check("scale", ok, observed=len(a2), expected=len(amp) * 3, detail="series operand")
     # a cycles column is kept untouched by scale/shift
     dfc = df.copy()
-    dfc["cycles"] = rng.integers(1, 50, len(df)).astype(float)
+    if "cycles" not in dfc:
+        dfc["cycles"] = rng.integers(1, 50, len(df)).astype(float)
     ctx.check("scale", _close(np.asarray(dfc.copy().load_collective.scale(f).cycles), dfc["cycles"].to_numpy()) and _close(
         np.asarray(dfc.copy().load_collective.shift(d).cycles), dfc["cycles"].to_numpy()), observed="cycles column", detail="cycles kept")
 
@@ -210,6 +228,58 @@ def _case_histogram(ctx, rng):
     marg = h2.groupby(level="range", observed=False, sort=False).sum()
     h1 = lc.range_histogram(redges).to_pandas()
     ctx.check("range_histogram==marginal", _close(marg.to_numpy(), h1.to_numpy()), observed=marg.to_numpy(), expected=h1.to_numpy())
+    # the other bin specifications of the two-dimensional histogram, and per-group histograms along an extra index level
+    kk = int(rng.integers(1, 6))
+    ctx.tag("hist2d:int_bins")
+    hk = lc.histogram(kk).to_pandas()            # an integer count spans min..max of ranges and of means
+    ctx.check("histogram:total", float(hk.sum()) == len(rngs) and len(hk) == kk * kk, observed=float(hk.sum()), expected=len(rngs),
+              detail={"bins": kk})
+    lo_b, hi_b = float(min(lo_m, 0.0)), float(max(hi_m, hi_r))
+    iv = pd.IntervalIndex.from_breaks(np.unique(np.round(np.concatenate([[lo_b, hi_b], rng.uniform(lo_b, hi_b, int(rng.integers(0, 4)))]), 2)))
+    ctx.tag("hist2d:interval_bins")
+    hiv = lc.histogram(iv).to_pandas()           # one IntervalIndex: the same classes for ranges and means
+    e0, e1 = float(iv.left[0]), float(iv.right[-1])
+    cov_iv = int(np.sum((rngs >= e0) & (rngs <= e1) & (means >= e0) & (means <= e1)))
+    ctx.check("histogram:total", float(hiv.sum()) == cov_iv and len(hiv) == len(iv) ** 2, observed=float(hiv.sum()), expected=cov_iv,
+              detail={"bins": [e0, e1]})
+    if extra:
+        ctx.tag("hist2d:axis")
+        hax = lc.histogram([redges, medges], axis="cycle_number").to_pandas()
+        per = hax.groupby("element_id").sum()
+        ids = df.index.get_level_values("element_id")
+        exp = pd.Series(rngs, index=ids).groupby(level=0).apply(lambda g: int(np.sum((g >= redges[0]) & (g <= redges[-1]))))
+        ok = _close(per.sort_index().to_numpy(), exp.sort_index().to_numpy()) and float(hax.sum()) == cov2
+        ctx.check("histogram:total", ok, observed=per.to_dict(), expected=exp.to_dict(), detail="per extra level (axis)")
+        # summing the groups gives the histogram of the whole collective
+        tot = hax.groupby(["range", "mean"], observed=False, sort=False).sum()
+        ctx.check("histogram:groups_sum_to_whole", _close(tot.sort_index().to_numpy(), h2.sort_index().to_numpy()),
+                  observed=tot.to_numpy(), expected=h2.to_numpy())
+    # ---- re-binning and combining two-dimensional histograms
+    from pylife.utils.histogram import combine_histogram, rebin_histogram
+    total2 = float(h2.sum())
+    kt = int(rng.integers(1, 7))
+    ctx.tag("rebin:2d_int_target")
+    r2 = rebin_histogram(h2, kt)
+    ctx.check("rebin:total_conserved", abs(float(r2.sum()) - total2) <= 1e-9 * max(1.0, total2) and len(r2) == kt * kt,
+              observed=float(r2.sum()), expected=total2, detail={"two_dimensional": True, "target": kt})
+    # a MultiIndex target that covers the source in both directions; the range marginal of the result is the re-binned marginal
+    rt = np.unique(np.concatenate([[redges[0] - 1.0, redges[-1] + 0.5], np.round(rng.uniform(redges[0], redges[-1], int(rng.integers(0, 4))), 2)]))
+    mt = np.unique(np.concatenate([[medges[0], medges[-1] + 2.0], np.round(rng.uniform(medges[0], medges[-1], int(rng.integers(0, 4))), 2)]))
+    target = pd.MultiIndex.from_product([pd.IntervalIndex.from_breaks(rt), pd.IntervalIndex.from_breaks(mt)], names=["range", "mean"])
+    ctx.tag("rebin:2d_multiindex_target")
+    r3 = rebin_histogram(h2, target)
+    ctx.check("rebin:total_conserved", abs(float(r3.sum()) - total2) <= 1e-9 * max(1.0, total2) and len(r3) == len(target),
+              observed=float(r3.sum()), expected=total2, detail={"two_dimensional": True, "range_edges": rt, "mean_edges": mt})
+    m3 = r3.groupby(level="range", observed=False, sort=False).sum()
+    m1 = rebin_histogram(h1.astype(float), pd.IntervalIndex.from_breaks(rt))
+    ctx.check("rebin:composes", _close(m3.to_numpy(), m1.to_numpy(), 1e-9, 1e-9), observed=m3.to_numpy(), expected=m1.to_numpy(),
+              detail="marginal of the re-binned 2D histogram == re-binned marginal")
+    ctx.tag("combine:2d")
+    other = lc.histogram([np.linspace(redges[0], redges[-1], int(rng.integers(1, 4)) + 1), medges]).to_pandas()
+    comb = combine_histogram([h2, other, h2], method="sum")
+    grand = 2 * total2 + float(other.sum())
+    ctx.check("combine:grand_total", abs(float(comb.sum()) - grand) <= 1e-9 * max(1.0, grand) and list(comb.index.names) == ["range", "mean"],
+              observed=float(comb.sum()), expected=grand, detail="two-dimensional")
 
 
 def _irregular_hist(rng, k=None, lo=None):
